@@ -1,7 +1,9 @@
 /-
   C06 — model of `vector_engine` similarity search (brute-force path, HNSW cache
-  handling, named collections, metadata filters) and of the dense/sparse storage
-  representation of `tensor_store::SparseVector`.
+  handling, named collections, metadata filters, metadata updates, batch stores,
+  pagination, post-filtering of an index answer) and of the dense/sparse storage
+  representation of `tensor_store::SparseVector`.  The approximate index itself
+  (`tensor_store::HNSWIndex`) is modelled in `HnswModel.lean`.
 
   Import-free, total, computable.  Mirrors the Rust code branch by branch
   (file/line references are to /repo/vector_engine/src/lib.rs unless noted):
